@@ -7,6 +7,7 @@ import (
 
 	"github.com/jamespfennell/gtfs"
 	"github.com/jamespfennell/gtfs/extensions"
+	"github.com/jamespfennell/gtfs/verifhook"
 
 	"vharness/internal/abs"
 )
@@ -21,7 +22,20 @@ func ParseOnce(msg Msg, order []int, zone string, ext extensions.Extension) (run
 	run = Run{Order: order, Zone: zone}
 	optLoc, loc := Zone(zone)
 	b := Bytes(msg, order)
+	verifhook.Sink = func(event string, args []any) {
+		switch event {
+		case "rt.merge":
+			skip := 0
+			if args[1].(bool) {
+				skip = 1
+			}
+			run.Steps = append(run.Steps, []int{skip, args[2].(int), args[3].(int), args[4].(int), args[5].(int), args[6].(int)})
+		case "rt.merged":
+			run.Steps = append(run.Steps, []int{0, args[1].(int), args[2].(int), args[3].(int), args[4].(int), args[5].(int)})
+		}
+	}
 	defer func() {
+		verifhook.Sink = nil
 		if r := recover(); r != nil {
 			run.Err = fmt.Sprint("panic: ", r)
 		}
